@@ -105,8 +105,34 @@ StructClause(rec) ==
        THEN "duplicate_data_wrappers"
   ELSE "ok"
 
+(***************************************************************************)
+(* rel = "sliceeq": an index expression re-synthesised by a code generator *)
+(* (rec.b, raw Python items as emitted in the generated source) selects    *)
+(* the same elements, in the same order, as the index the user wrote       *)
+(* (rec.a), on axes of the lengths rec.shape.  Items beyond Len(rec.b) are *)
+(* full slices (trailing trivial slices may be dropped).                   *)
+(***************************************************************************)
+FullSlice == [t |-> "slice", start |-> <<>>, stop |-> <<>>, step |-> <<>>]
+ItemOr(items, j) == IF j <= Len(items) THEN items[j] ELSE FullSlice
+SliceEqClause(rec) ==
+  LET n == Len(rec.shape)
+      bad(j) ==
+        LET a == ItemOr(rec.a, j) b == ItemOr(rec.b, j) len == rec.shape[j] IN
+        IF a.t = "int" \/ b.t = "int" THEN
+             ~(a.t = "int" /\ b.t = "int" /\ IntIndexValid(b.v, len)
+               /\ IntIndexNorm(a.v, len) = IntIndexNorm(b.v, len))
+        ELSE IF a.t = "slice" /\ b.t = "slice" THEN
+             \/ (~IsNone(b.step) /\ OptVal(b.step) = 0)
+             \/ SliceLen(a.start, a.stop, a.step, len) # SliceLen(b.start, b.stop, b.step, len)
+             \/ \E t \in 0..(SliceLen(a.start, a.stop, a.step, len) - 1) :
+                    SliceAt(a.start, a.step, len, t) # SliceAt(b.start, b.step, len, t)
+        ELSE FALSE     \* index arrays are passed through by name
+  IN IF Len(rec.b) > n THEN "too_many_items"
+     ELSE IF \E j \in 1..n : bad(j) THEN "slice_differs" ELSE "ok"
+
 Clause(rec) ==
   CASE rec.rel = "eq" -> EqClause(rec)
+    [] rec.rel = "sliceeq" -> SliceEqClause(rec)
     [] rec.rel = "struct" -> StructClause(rec)
     [] rec.rel = "ne" -> IF EqClause(rec) = "ok" THEN "equal_but_expected_different" ELSE "ok"
 
